@@ -533,6 +533,7 @@ theorem cleanGet {g : Ent} {a tid : Nat} {w : World} {ts' : List Ent} (hB : Clea
     have htotal : ∃ (r : Option Nat),
         getTable a (r0 :: rest) w = .ok r w := by
       apply getTable_rel_total hrelA' hlenA hcolA
+        (by rw [← hall]; exact colRels_comps_nodup hnd _ _)
       intro ts hf t ht
       obtain ⟨_, Tt, hTt, _, hTtf, e1, e2, _⟩ := hlisted ts hf t ht
       rw [tbl_of_get hTt]
